@@ -47,6 +47,10 @@ const (
 	// one NAME for two AVPs of the application: TW-Shared is code 2005 without a vendor and code 2006 for vendor 999
 	sharedPlain    = 2005
 	sharedVendored = 2006
+	// an AVP the private dictionary does not define at all, under a code and name that the
+	// built-in dictionaries know (Origin-Host, 264): a search by that name has nothing to resolve it
+	foreignCode = 264
+	foreignName = "Origin-Host"
 )
 
 func twinName(code uint32, grouped bool) string {
@@ -185,6 +189,9 @@ func (c *TwinCase) build(n *TwinNode, seq *uint32) *diam.AVP {
 		return diam.NewAVP(n.Code, flags, v, g)
 	}
 	*seq++
+	if n.Code == foreignCode {
+		return diam.NewAVP(n.Code, 0x40, 0, datatype.OctetString(fmt.Sprintf("host%d.example", *seq)))
+	}
 	return diam.NewAVP(n.Code, flags, v, datatype.Unsigned32(*seq))
 }
 
@@ -200,6 +207,11 @@ func (c *TwinCase) resolvable(e TwinElem, vendor uint32) bool {
 		return match(c.vendorOf(e.Code, false))
 	case "shared-name":
 		return true // defined for no vendor and for vendor 999
+	case "foreign-name":
+		return false
+	}
+	if e.Code == foreignCode {
+		return false
 	}
 	if e.Code == twinLeaf || e.Code == twinLeafV || e.Code == sharedPlain || e.Code == sharedVendored {
 		return match(c.vendorOf(e.Code, false))
@@ -222,6 +234,8 @@ func (e TwinElem) arg() interface{} {
 		return "TW-Leaf"
 	case "shared-name":
 		return "TW-Shared"
+	case "foreign-name":
+		return foreignName
 	}
 	return e.Code
 }
@@ -267,7 +281,9 @@ func runTwin(c TwinCase) *ev.Failure {
 		var codes []uint32
 		all := true
 		sharedAnyVendor := false
+		foreign := false
 		for _, e := range q.Path {
+			foreign = foreign || e.Form == "foreign-name"
 			args = append(args, e.arg())
 			code := e.Code
 			if e.Form == "shared-name" {
@@ -287,6 +303,21 @@ func runTwin(c TwinCase) *ev.Failure {
 		want := twinWalk(m.AVP, codes)
 		got, err := m.FindAVPsWithPath(args, q.Vendor)
 		desc := fmt.Sprintf("query %d: FindAVPsWithPath(%v, vendor %d)", qi, args, q.Vendor)
+		if foreign {
+			// a name this dictionary does not define (another dictionary of the process does): an error or nothing
+			if err == nil && len(got) > 0 {
+				return ev.Failf("twin:absent-but-returned", "%s returned %d AVPs (first code %d) although the message's dictionary does not define the name %q", desc, len(got), got[0].Code, foreignName)
+			}
+			if len(q.Path) == 1 {
+				if a, err := m.FindAVP(foreignName, q.Vendor); err == nil && a != nil {
+					return ev.Failf("twin:absent-but-returned", "query %d: FindAVP(%q, vendor %d) returned an AVP with code %d although the message's dictionary does not define that name", qi, foreignName, q.Vendor, a.Code)
+				}
+				if as, err := m.FindAVPs(foreignName, q.Vendor); err == nil && len(as) > 0 {
+					return ev.Failf("twin:absent-but-returned", "query %d: FindAVPs(%q, vendor %d) returned %d AVPs although the message's dictionary does not define that name", qi, foreignName, q.Vendor, len(as))
+				}
+			}
+			continue
+		}
 		if sharedAnyVendor {
 			// accept the walk for any assignment of the two codes to the shared-name elements
 			if err != nil {
@@ -372,12 +403,15 @@ func runTwin(c TwinCase) *ev.Failure {
 
 func genTwinTree(t *rapid.T, depth int) []*TwinNode {
 	n := rapid.IntRange(1, 4).Draw(t, "n")
+	if depth > 3 {
+		n = rapid.IntRange(1, 2).Draw(t, "n-deep")
+	}
 	var out []*TwinNode
 	for i := 0; i < n; i++ {
-		nd := &TwinNode{Code: rapid.SampledFrom([]uint32{2001, 2001, 2003, 2003, twinLeaf, twinLeafV, sharedPlain, sharedVendored}).Draw(t, "code")}
+		nd := &TwinNode{Code: rapid.SampledFrom([]uint32{2001, 2001, 2003, 2003, twinLeaf, twinLeafV, sharedPlain, sharedVendored, foreignCode}).Draw(t, "code")}
 		if nd.Code == 2001 || nd.Code == 2003 {
 			nd.Group = rapid.IntRange(0, 3).Draw(t, "as-group") != 0
-			if nd.Group && depth < 3 {
+			if nd.Group && depth < twinMaxDepth {
 				nd.Children = genTwinTree(t, depth+1)
 			}
 		}
@@ -386,8 +420,16 @@ func genTwinTree(t *rapid.T, depth int) []*TwinNode {
 	return out
 }
 
+// nesting depth of the generated trees (groups inside groups): deep enough for a walk that keeps
+// its own stack to have to grow it
+const twinMaxDepth = 7
+
 func genTwinElem(t *rapid.T, code uint32) TwinElem {
 	e := TwinElem{Code: code}
+	if code == foreignCode {
+		e.Form = rapid.SampledFrom([]string{"u32", "foreign-name", "foreign-name"}).Draw(t, "form")
+		return e
+	}
 	if code == sharedPlain || code == sharedVendored {
 		e.Form = rapid.SampledFrom([]string{"u32", "int", "shared-name", "shared-name"}).Draw(t, "form")
 	} else if code == twinLeaf || code == twinLeafV {
@@ -401,7 +443,7 @@ func genTwinElem(t *rapid.T, code uint32) TwinElem {
 var twinProp = ev.Register(&ev.Prop[TwinCase]{
 	ID: "C20", Name: "twin-codes",
 	Rule: "a private dictionary defines two codes twice each, as a Grouped AVP for one vendor and as an Unsigned32 for the other (which vendor, which definition comes first and whether each sits in the application or in base are generated); " +
-		"trees of depth <= 3 hold both twins, two leaves and two AVPs that share one NAME (code 2005 without a vendor, 2006 for vendor 999; the name then stands for the code of the vendor asked for, for UndefinedVendorID for either); 1..5 path searches follow true paths of the tree (or random ones), elements given as uint32, int or by either twin's name, with vendor UndefinedVendorID / 0 / 999; built in memory or read back from the wire. " +
+		"trees of depth <= 7 hold both twins, two leaves and an AVP of code 264 that the private dictionary does not define (searched by the name the built-in dictionaries give that code: an error or nothing), two AVPs that share one NAME (code 2005 without a vendor, 2006 for vendor 999; the name then stands for the code of the vendor asked for, for UndefinedVendorID for either); 1..5 path searches follow true paths of the tree (or random ones), elements given as uint32, int or by either twin's name, with vendor UndefinedVendorID / 0 / 999; built in memory or read back from the wire. " +
 		"Demanded: when the dictionary defines every element for that vendor the result is pointer-identical to a reference walk over the CODES (single-element paths also through FindAVPs / FindAVP); otherwise an error, or nothing the walk does not reach. " +
 		"non-trivial = some path of length >= 2 passes through a twin code's group",
 	Gen: func(t *rapid.T) TwinCase {
@@ -461,6 +503,12 @@ var twinProp = ev.Register(&ev.Prop[TwinCase]{
 				all = all && c.resolvable(e, q.Vendor)
 				if e.Form == "shared-name" {
 					cl["name-shared-by-two-vendors"] = true
+				}
+				if e.Form == "foreign-name" {
+					cl["name-only-another-dictionary-defines"] = true
+				}
+				if len(q.Path) >= 5 {
+					cl["path-len>=5"] = true
 				}
 				if i < len(q.Path)-1 && (e.Code == 2001 || e.Code == 2003) {
 					cl["through-twin:"+e.Form] = true
